@@ -100,6 +100,9 @@ def check_C01(tier, seed, replay=None):
         trees = F.exhaustive(2, F.LEAVES_SMALL)
         nrand, maxlen = 3000, 3
         flagsets = FLAGSETS_8
+    # label scopes: a name bound again inside & / ! / ? / * does not replace the outer binding the action receives
+    shl = [("lit", (F.A,), False), ("cls", (F.A, F.B), (), False, False), ("any",)]
+    trees = trees + [("shadowp", pk, a, b, c, d_) for pk in ("and", "not") for a in shl[:2] for b in shl for c in (shl[0], ("lit", (), False)) for d_ in shl[1:]]
     groups = F.groups_from_trees(trees)
     cfg = F.RandCfg(depth=4, maxrules=3, safe_rep=False)
     groups += F.random_groups(seed, nrand, cfg, gi0=len(groups) + 1)
@@ -186,6 +189,7 @@ def check_C02(tier, seed, replay=None):
              [("choice", ("seq", ("perr", neg, op), sh[0]), sh[2]) for neg in (False, True) for op in ("true", "false")]
     trees += [("shadow", a, b, c) for a in sh for b in sh for c in sh[:2]] + \
              [("shadow", a, b, ("lit", (), False), ("pred", False, "true")) for a in sh for b in sh]
+    trees += [("shadowp", pk, a, b, c, d_) for pk in ("and", "not") for a in sh[:2] for b in sh[:3] for c in (sh[0], ("lit", (), False)) for d_ in sh[1:3]]
     groups = F.groups_from_trees(trees)
     cfg = F.RandCfg(depth=4, maxrules=3, leaves=F.LEAVES_UTF8 + F.LEAVES_FULL, preds=True, state=True, cloner=True, errs=0.25)
     groups += F.random_groups(seed, nrand // 2, cfg, gi0=len(groups) + 1)
